@@ -156,6 +156,35 @@ func (e *Env) withdrawnOf(st *Step, d int) *big.Int {
 	return sum
 }
 
+// withdrawnByVal: per validator, what x/distribution paid the module account in this step, in denom d
+func (e *Env) withdrawnByVal(st *Step, d int) map[int]*big.Int {
+	out := map[int]*big.Int{}
+	f := strings.Fields(st.Op)
+	for i, t := range f {
+		if t == "W" {
+			n := atoi(f[i+1])
+			j := i + 2
+			for k := 0; k < n; k++ {
+				v := atoi(f[j])
+				j++
+				m := atoi(f[j])
+				j++
+				for c := 0; c < m; c++ {
+					if atoi(f[j]) == d {
+						if out[v] == nil {
+							out[v] = new(big.Int)
+						}
+						out[v].Add(out[v], bi(f[j+1]))
+					}
+					j += 2
+				}
+			}
+			break
+		}
+	}
+	return out
+}
+
 func sameUndelE(a, b UndelE) bool {
 	return a.Del == b.Del && a.Val == b.Val && a.Denom == b.Denom && a.Amt.Cmp(b.Amt) == 0
 }
